@@ -201,14 +201,20 @@ def classify(r, ob):
 
 def unwind_of(q):
     u = q.ob.get('unwind', 8)
-    if isinstance(u, str): u = eval(u, {}, dict(q.params))
+    if isinstance(u, str):
+        import collections
+        env = collections.defaultdict(lambda: 1); env.update(q.params); u = eval(u, {}, env)
     return int(u)
 
 def run_cbmc(q, extra=()):
     ob = q.ob
-    cmd = ['cbmc', 'q.c', '--function', 'vf_main', '--unwind', str(unwind_of(q))] + CBMC_FLAGS + list(ob.get('cbmc_flags', [])) + list(extra)
+    flags = list(CBMC_FLAGS)
+    if ob.get('field_sens') is not None: flags[flags.index('--max-field-sensitivity-array-size') + 1] = str(ob['field_sens'])
+    cmd = ['cbmc', 'q.c', '--function', 'vf_main', '--unwind', str(unwind_of(q))] + flags + list(ob.get('cbmc_flags', [])) + list(extra)
     if ob.get('unwindset'): cmd += ['--unwindset', ob['unwindset']]
+    if ob.get('sat_solver'): cmd += ['--sat-solver', ob['sat_solver']]
     tier_to = ob.get('timeout', 600)
+    if os.environ.get('VF_TIMEOUT_CAP'): tier_to = min(tier_to, int(os.environ['VF_TIMEOUT_CAP']))
     with open(os.path.join(q.wd, 'cbmc.json'), 'wb') as fo:
         r = run(cmd, cwd=q.wd, timeout=tier_to, mem_gb=ob.get('mem_gb', 16), stdout=fo)
     open(os.path.join(q.wd, 'cbmc.cmd'), 'w').write(' '.join(cmd) + '\n')
@@ -263,6 +269,8 @@ def native_exe(q, asan=False):
             for e in extn: f.write('char %s[512];\n' % e)
         must([CLANG, '-O0', '-w', '-c', 'native_ext.c', '-o', name + '.ext.o'], 'native build (externals)', cwd=q.wd); objs.append(name + '.ext.o')
     ntus = list(q.ob.get('native_tus', []))
+    und = run(['nm', '-u', name + '.mod.o'], cwd=q.wd)['out']
+    if 'grow_pod' in und and not any('SmallVector.cpp' in t for t in ntus): ntus.append('lib/llvm/Support/SmallVector.cpp')
     if ntus: ntus.append(os.path.join(ENGINE, 'native_support.cpp'))
     for i, t in enumerate(ntus):
         o = '%s.tu%d.o' % (name, i)
